@@ -481,6 +481,8 @@ struct ICfg {
     seed: u64,
     rounds: u64,
     pool: Vec<c_int>,
+    /// 9 / 10: the run decides only that property (violations of the other one are reported but do not end the run); 0 = both
+    focus: u32,
 }
 
 enum Inst<E: Exfiltrator> {
@@ -742,6 +744,14 @@ where
                 tot.bad10.push(format!("the consumer thread panicked inside the iterator (pending/wait/forever/poll must never panic) [{} round {}]", label, round));
                 break 'rounds;
             }
+            if crate::now_ms() - tq > 3_000 && OPEN_BRACKETS.load(Ordering::SeqCst) != 0 {
+                // a delivery that does not come back: the threads of this run cannot be joined any more
+                if let Some(m) = director::delivery_stuck(&[]) {
+                    emit_violation("C03", "dispatch-spins", &format!("{} [w_iter {} round {}]", m, label, round));
+                    emit(&J::obj().set("type", J::s("inconclusive")).set("reason", J::s("a delivery is stuck inside the dispatcher: nothing can be concluded about the iterator")));
+                    unsafe { libc::_exit(2) };
+                }
+            }
             if crate::now_ms() - tq > 20_000 || evlog::OVERFLOW.load(Ordering::SeqCst) {
                 // the C10 rules do not need a stable point: run them over what was logged
                 let evs = evlog::snapshot();
@@ -767,7 +777,8 @@ where
             tot.keys.insert(format!("{}:nested@{}", label, director::site_name(*s)));
         }
         tot.keys.insert(format!("{}:phase{}:burst{}", label, ph, if k > 6 { "long" } else { "short" }));
-        if !tot.bad09.is_empty() || !tot.bad10.is_empty() {
+        // a check that decides only one of the two properties goes on after a violation of the other one
+        if (cfg.focus != 10 && !tot.bad09.is_empty()) || (cfg.focus != 9 && !tot.bad10.is_empty()) {
             break;
         }
     }
@@ -836,7 +847,7 @@ pub fn main(args: &[String]) -> i32 {
         unsafe { signal_hook_registry::register_sigaction(*s, witness) }.expect("witness register");
     }
     director::lib_exit();
-    let cfg = ICfg { seed, rounds, pool: pool_sigs };
+    let cfg = ICfg { seed, rounds, pool: pool_sigs, focus: match arg_str(args, "--focus", "") { "C09" => 9, "C10" => 10, _ => 0 } };
     let mut rng = Rng::new(seed);
     let mut tot = Tot::default();
     let t0 = crate::now_ms();
@@ -854,7 +865,7 @@ pub fn main(args: &[String]) -> i32 {
             1 => run_instance(WithRawSiginfo, name, front, &cfg, &mut rng, &mut tot),
             _ => run_instance(WithOrigin::default(), name, front, &cfg, &mut rng, &mut tot),
         }
-        if !tot.bad09.is_empty() || !tot.bad10.is_empty() || tot.inconclusive.is_some() {
+        if (cfg.focus != 10 && !tot.bad09.is_empty()) || (cfg.focus != 9 && !tot.bad10.is_empty()) || tot.inconclusive.is_some() {
             break;
         }
     }
